@@ -17,6 +17,7 @@ import (
 	"fmt"
 	"io"
 	"math"
+	"os"
 	"sort"
 	"strings"
 	"testing"
@@ -186,6 +187,7 @@ type c03Quota struct {
 	NsAnno     []string
 	RV         int
 	MaxLowered bool
+	Imported   bool // an assigned pod was moved in from the default quota (migration): that bypasses admission
 	Children   []string
 }
 
@@ -211,7 +213,9 @@ const (
 
 type c03Pod struct {
 	Name     string
-	Quota    string // the quota the pod belongs to by construction
+	Quota    string // the quota that holds the pod (the default quota while the pod is parked there)
+	Label    string // parked pods: the quota named by the label, created later (or never)
+	Parked   bool   // labelled with a quota that did not exist when the pod arrived: kept in the default quota until migrated
 	How      string // how the association is expressed
 	Req      c03Res // full request, undeclared dimensions included
 	ZeroKeys []corev1.ResourceName
@@ -220,6 +224,14 @@ type c03Pod struct {
 	Obj      *corev1.Pod
 	RV       int
 	Rejected bool // a rejection happened and no admission since
+}
+
+// a quota that is created in the middle of the history; pods labelled with its name before that are parked in the
+// default quota and moved by the plugin's periodic migration afterwards
+type c03Late struct {
+	Name    string
+	Parent  string // "" = below the root
+	Created bool
 }
 
 type c03Node struct {
@@ -240,6 +252,9 @@ type c03Case struct {
 	leaves   []string
 	pods     map[string]*c03Pod
 	special  bool // some pods go to the default / system quota in this case
+	late     []*c03Late
+	baseDims []corev1.ResourceName
+	window   bool // $VERIF_C03_WINDOW=1: also schedule / roll back parked pods between quota creation and migration
 	tight    bool // small cluster: runtime quotas well below max
 	podSeq   int
 	nodes    map[string]*c03Node
@@ -510,6 +525,22 @@ func c03NewCase(t *rapid.T, p *Plugin, c *vk.Case, rtOn, parOn bool) *c03Case {
 		h.genQuota(t, string(rune('a'+i)), nil, dims, nil, 0)
 	}
 	c.ClassIf(mixed, "top-level-subtrees-with-different-dimensions")
+	h.baseDims = base
+	h.window = os.Getenv("VERIF_C03_WINDOW") == "1"
+	for i, n := 0, rapid.SampledFrom([]int{0, 1, 1, 1, 2}).Draw(t, "lateQuotas"); i < n; i++ {
+		l := &c03Late{Name: fmt.Sprintf("z%d", i+1)}
+		var parents []string
+		for _, name := range h.order {
+			if h.quotas[name].IsParent {
+				parents = append(parents, name)
+			}
+		}
+		if len(parents) > 0 && rapid.Bool().Draw(t, "lateBelowParent") {
+			l.Parent = rapid.SampledFrom(parents).Draw(t, "lateParent")
+		}
+		h.late = append(h.late, l)
+		h.setup = append(h.setup, fmt.Sprintf("planned: quota %s (parent=%q) is created later", l.Name, l.Parent))
+	}
 	// ---- fresh manager, as at scheduler start-up: ReplaceQuotas over what the quota informer listed
 	_ = p.quotaInformer.GetIndexer().Replace(nil, "")
 	viaReplace := rapid.IntRange(0, 3).Draw(t, "treePresentAtStartup") == 0
@@ -629,7 +660,23 @@ func (h *c03Case) createPod(t *rapid.T) *c03Pod {
 	if h.special {
 		k = rapid.IntRange(0, 15).Draw(t, "target")
 	}
+	var pending []*c03Late
+	for _, l := range h.late {
+		if !l.Created {
+			pending = append(pending, l)
+		}
+	}
+	if len(pending) > 0 && rapid.IntRange(0, 3).Draw(t, "forLateQuota") == 0 {
+		k = -1
+	}
 	switch {
+	case k == -1:
+		// the quota named by the label does not exist (yet): the plugin keeps the pod in the default quota, where it
+		// is admitted, reserved and bound like any pod of that quota
+		l := pending[rapid.IntRange(0, len(pending)-1).Draw(t, "lateName")]
+		pd.Quota, pd.How, pd.Label, pd.Parked = extension.DefaultQuotaName, "label-names-quota-created-later", l.Name, true
+		labels[extension.LabelQuotaName] = l.Name
+		h.c.Class("pod-parked-in-default")
 	case k == 0:
 		pd.Quota, pd.How, ns = extension.DefaultQuotaName, "no-label-unmatched-namespace", "nomatch"
 	case k == 1:
@@ -698,7 +745,7 @@ func (h *c03Case) createPod(t *rapid.T) *c03Pod {
 		}
 	}
 	h.c.ClassIf(undeclared, "pod-requests-undeclared-dimension")
-	h.c.ClassIf(own.Special, "pod-in-default-or-system-quota")
+	h.c.ClassIf(own.Special && !pd.Parked, "pod-in-default-or-system-quota")
 	h.c.ClassIf(pd.How != "label" && !own.Special, "pod-associated-by-namespace")
 	h.c.ClassIf(pd.NonPre, "non-preemptible-pod")
 	h.logf("podAdd %s quota=%s(%s) nonPreemptible=%v req=%s zeroKeys=%v", pd.Name, pd.Quota, pd.How, pd.NonPre, c03Str(pd.Req), pd.ZeroKeys)
@@ -711,6 +758,9 @@ func (h *c03Case) pick(t *rapid.T, state int, label string, prefer func(*c03Pod)
 	var names, pref []string
 	for _, n := range h.podNames() {
 		pd := h.pods[n]
+		if state == c03Pending && h.inWindow(pd) && !h.window {
+			continue // see inWindow
+		}
 		if pd.State == state || (state == -1 && pd.State != c03Pending) {
 			names = append(names, n)
 			if prefer != nil && prefer(pd) {
@@ -763,6 +813,71 @@ func (h *c03Case) leavesUnderFullAncestor() []string {
 		}
 	}
 	return out
+}
+
+// a parked pod whose quota has been created but which the migration cycle has not moved yet. During that window
+// (at most one migration period, 1 s) the plugin resolves the pod to the new quota while the manager still holds it
+// in the default quota: pod update / delete events are routed to the holding quota, but ReservePod / UnreservePod on
+// the new quota are no-ops for it. By default the harness therefore neither schedules nor rolls back such a pod
+// inside the window (stated assumption); $VERIF_C03_WINDOW=1 lifts the restriction.
+func (h *c03Case) inWindow(pd *c03Pod) bool {
+	return pd.Parked && h.quotas[pd.Label] != nil
+}
+
+// the pod now counts against the quota its label names (migration cycle, or a pod update that lands in the window)
+func (h *c03Case) moveToOwnQuota(pd *c03Pod, how string) {
+	q := h.quotas[pd.Label]
+	pd.Quota, pd.Parked = q.Name, false
+	if pd.State != c03Pending {
+		// running pods arrive without passing admission: the quota and its ancestors leave the "used <= max" claim
+		q.Imported = true
+		for _, a := range h.chain(q) {
+			a.Imported = true
+		}
+		h.c.Class("migrated-assigned-pod")
+	} else {
+		h.c.Class("migrated-pending-pod")
+	}
+	h.logf("  %s now in %s (%s, %s)", pd.Name, q.Name, how, []string{"pending", "reserved", "bound"}[pd.State])
+}
+
+// create one of the planned late quotas: a leaf, webhook-valid where it lands
+func (h *c03Case) lateQuotaCreate(t *rapid.T, l *c03Late) {
+	var parent *c03Quota
+	dims := h.baseDims
+	var budget c03Res
+	if l.Parent != "" {
+		parent = h.quotas[l.Parent]
+		dims = parent.Dims
+		budget = c03Res{}
+		for _, d := range parent.Dims {
+			budget[d] = parent.Min[d]
+			for _, ch := range parent.Children {
+				budget[d] -= h.quotas[ch].Min[d]
+			}
+			if budget[d] < 0 {
+				budget[d] = 0
+			}
+		}
+	}
+	q := h.genQuota(t, l.Name, parent, dims, budget, 2) // depth 2: always a leaf
+	l.Created = true
+	eq := c03QuotaObj(q)
+	h.storeQuota(eq)
+	h.p.OnQuotaAdd(eq)
+	h.c.Class("late-quota-created")
+	h.logf("quotaCreate %s", q.String())
+}
+
+// one turn of the plugin's periodic goroutine (Plugin.Start: wait.Until(g.migrateDefaultQuotaGroupsPod, 1s))
+func (h *c03Case) migrate() {
+	h.p.migrateDefaultQuotaGroupsPod()
+	h.logf("migrateDefaultQuotaGroupsPod")
+	for _, n := range h.podNames() {
+		if pd := h.pods[n]; h.inWindow(pd) {
+			h.moveToOwnQuota(pd, "migration cycle")
+		}
+	}
 }
 
 // does pd hold quota on the path of a quota with a standing rejection that nothing has been freed for yet?
@@ -827,7 +942,7 @@ func (h *c03Case) deletePod(t *rapid.T, pd *c03Pod) {
 }
 
 func (h *c03Case) finishBinding(t *rapid.T, pd *c03Pod) {
-	if rapid.IntRange(0, 2).Draw(t, "bindFails") == 0 {
+	if rapid.IntRange(0, 2).Draw(t, "bindFails") == 0 && (!h.inWindow(pd) || h.window) {
 		h.p.Unreserve(context.TODO(), framework.NewCycleState(), pd.Obj, "n1")
 		pd.State = c03Pending
 		h.released(pd)
@@ -841,10 +956,16 @@ func (h *c03Case) finishBinding(t *rapid.T, pd *c03Pod) {
 	nw.Spec.NodeName = "n1"
 	nw.ResourceVersion = fmt.Sprint(pd.RV)
 	pd.Obj = nw
+	window := h.inWindow(pd)
 	h.p.OnPodUpdate(old, nw)
 	pd.State = c03Bound
 	h.c.Class("bind")
 	h.logf("bind %s", pd.Name)
+	if window {
+		// the update is resolved to the new quota, the manager finds the pod in the default quota: it takes the pod
+		// (and its usage) out there and adds it, bound, to the new quota
+		h.moveToOwnQuota(pd, "pod update in the window")
+	}
 }
 
 func (h *c03Case) quotaUpdate(t *rapid.T) {
@@ -1003,6 +1124,10 @@ func (h *c03Case) describeCode(pd *c03Pod, sums map[string]*core.QuotaInfoSummar
 
 // one scheduling attempt of a pending pod: PreFilter, checked; on success Reserve
 func (h *c03Case) schedule(t *rapid.T, pd *c03Pod, midCycle func()) {
+	if h.inWindow(pd) { // only with $VERIF_C03_WINDOW=1: the plugin checks (and the pod is meant to be charged to) the new quota
+		pd.Quota, pd.Parked = pd.Label, false
+		h.c.Class("scheduled-in-the-window(opt-in)")
+	}
 	own := h.quotas[pd.Quota]
 	mgr := h.p.groupQuotaManager
 	if h.rtOn {
@@ -1102,7 +1227,7 @@ func (h *c03Case) invariant(t *rapid.T) {
 	names := append([]string{extension.DefaultQuotaName, extension.SystemQuotaName}, h.order...)
 	for _, name := range names {
 		q := h.quotas[name]
-		if q.MaxLowered || (q.IsParent && !h.parOn) {
+		if q.MaxLowered || q.Imported || (q.IsParent && !h.parOn) {
 			continue
 		}
 		s := sums[name]
@@ -1249,6 +1374,46 @@ func c03Run(t *testing.T, unit string, rtOn, parOn bool) {
 			"deletePod":      doDelete,
 			"deletePod2":     doDelete,
 
+			"lateQuotaCreate": func(t *rapid.T) {
+				if h.dead {
+					return
+				}
+				var open []*c03Late
+				for _, l := range h.late {
+					if !l.Created {
+						open = append(open, l)
+					}
+				}
+				if len(open) == 0 {
+					t.Skip("no quota left to create")
+				}
+				l := open[rapid.IntRange(0, len(open)-1).Draw(t, "late")]
+				parked, held := false, false
+				for _, n := range h.podNames() {
+					if pd := h.pods[n]; pd.Parked && pd.Label == l.Name {
+						parked = true
+						held = held || pd.State != c03Pending
+					}
+				}
+				// mostly once a pod waits for it, preferably one that already runs in the default quota
+				if (!parked && rapid.IntRange(0, 3).Draw(t, "createUnawaited") > 0) || (parked && !held && rapid.Bool().Draw(t, "waitForAssignment")) {
+					t.Skip("later")
+				}
+				h.lateQuotaCreate(t, l)
+			},
+			"migrate": func(t *rapid.T) {
+				if h.dead {
+					return
+				}
+				any := false
+				for _, n := range h.podNames() {
+					any = any || h.inWindow(h.pods[n])
+				}
+				if !any && rapid.IntRange(0, 7).Draw(t, "idleMigration") > 0 {
+					t.Skip("nothing to migrate")
+				}
+				h.migrate()
+			},
 			"quotaUpdate": func(t *rapid.T) {
 				if !h.dead {
 					h.quotaUpdate(t)
